@@ -351,6 +351,7 @@ deriving Repr, DecidableEq
 /-- `Decoder.parseSOF3` (no allocation here: sample planes are allocated in decodeScan) -/
 def jllSOF3 (st : Jll) (data : Bytes) : Option Jll :=
   if data.length < 6 then none
+  else if st.comps ≠ 0 then none     -- a second frame header is rejected (commit 72b8b5a)
   else
     let p := data.getD 0 0
     if p < 2 ∨ p > 16 then none
